@@ -49,6 +49,18 @@ def uniqueFluxThin (shape : List Nat) (h : List Rat) (a : Nat) (f : Nat → Rat)
 def thinB (shape : List Nat) (a : Nat) : Bool :=
   decide (a < shape.length) && (List.range shape.length).all fun b => b == a || shape.getD b 0 == 1
 
+/-- exact check of a dual certificate `(p, g)` (hypotheses of `C05.potential_lower_bound`): on every face the mean of `g`
+is minus the difference quotient of `p`, and `g` lies in the Euclidean unit ball in every cell -/
+def certOK (shape : List Nat) (h : List Rat) (p : Nat → Rat) (g : Nat → Nat → Rat) : Bool :=
+  ((List.range (numFaces shape)).all fun k =>
+    decide (vol h * (1 / 2) * (g (conn shape k).1 (faceAxis shape k) + g (conn shape k).2 (faceAxis shape k)) =
+      -(area h (faceAxis shape k) * (p (conn shape k).2 - p (conn shape k).1)))) &&
+  ((List.range (numCells shape)).all fun c => decide (sumTo shape.length (fun a => g c a * g c a) ≤ 1))
+
+/-- the certified lower bound `Σ_c p_c · vol · f_c` -/
+def certValue (shape : List Nat) (h : List Rat) (f p : Nat → Rat) : Rat :=
+  sumTo (numCells shape) (fun c => p c * (vol h * f c))
+
 /-- `EMD.__call__` for a single-cell move of `value` by (`drow`, `dcol`) voxels: `cv2.EMD` returns the displacement
 length `√((dcol·dx)² + (drow·dy)²)` (total flow normalised to 1), rescaled by `integral · cell_volume`;
 returned here as the square of the result. -/
